@@ -364,6 +364,31 @@ def match1(c: int, a: int, b: int, tk: int, x: int, y: int, lo: int) -> bool:
     return _check(p, target(tk, x, y))
 
 
+def match_reuse(c: int, a: int, b: int, tk1: int, tk2: int, x: int, y: int, lo: int) -> bool:
+    """ONE Match spec object evaluated on two targets in succession: each verdict is that of a fresh pattern"""
+    start()
+    p = composite(c, atom(a, lo), atom(b, lo + 1))
+    if p is None:
+        return True
+    spec = Match(real(p))
+    for tk in (tk1, tk2):
+        t = target(tk, x, y)
+        try:
+            exp = ('ok', conforms(p, t))
+        except Reject as e:
+            exp = ('rej', e.is_type)
+        except TypeError:
+            return True
+        got = run(lambda: glom(t, spec, glom_debug=True))
+        if exp[0] == 'ok':
+            if got.kind != 'ok' or got.value != exp[1]:
+                return fail(why='re-used Match spec: should match', got=got, exp=exp, t=t)
+        elif got.kind != 'err' or not isinstance(got.exc, MatchError):
+            return fail(why='re-used Match spec: should reject', got=got, t=t)
+    reach('reuse')
+    return True
+
+
 def match2(c: int, d: int, a: int, b: int, e: int, tk: int, x: int, y: int, lo: int) -> bool:
     """composite c over (composite d over atoms a, b) and atom e"""
     start()
@@ -401,6 +426,9 @@ def obligations(tier):
             bpre = '(b == 0 or b == 2 or b == 3 or b == 5 or b == 7)' if q else '0 <= b < %d' % NATOM
             obs.append(Ob(match1, fixed={'c': c, 'a': a}, pre='%s and 0 <= tk < %d' % (bpre, NTGT),
                           name='match1_c%d_a%d' % (c, a), timeout=120))
+    for c in (1, 4, 6, 7, 8, 12):
+        obs.append(Ob(match_reuse, fixed={'c': c, 'a': 2, 'b': 3}, pre='(tk1 == 7 or tk1 == 12 or tk1 == 13 or tk1 == 15) and (tk2 == 6 or tk2 == 11 or tk2 == 12 or tk2 == 14)',
+                      name='match_reuse_c%d' % c, timeout=120))
     deep_t = [6, 7, 9, 12, 13, 14, 15, 20, 21, 11]
     tpre = '(' + ' or '.join('tk == %d' % t for t in deep_t) + ')'
     if q:
